@@ -696,6 +696,7 @@ func (e *balEngine) predict(bt *balTx) (expect, []balEvent, func()) {
 		return mustSucceed, evs, ap
 	case bTick, bDirectEpoch:
 		depth := 0
+		nestedRefusal := false
 		if bt.kind == bTick {
 			depth = 1
 			if !e.alphabetWitness(bt, 0) || bt.epoch <= m.epoch {
@@ -704,7 +705,12 @@ func (e *balEngine) predict(bt *balTx) (expect, []balEvent, func()) {
 			if !e.alphabetWitness(bt, 1) {
 				// witness valid for Netmap only (CalledByEntry): the subscriber
 				// refuses; whether that aborts the tick is C06's business
-				return dontCare, nil, func() {}
+				if e.r.Prop != "C09" {
+					return dontCare, nil, func() {}
+				}
+				// … but a tick that does take place is a tick: under C09 it has
+				// to release what has expired, however it came about
+				nestedRefusal = true
 			}
 		} else if !e.alphabetWitness(bt, depth) {
 			return mustRefuse, nil, nil
@@ -749,6 +755,9 @@ func (e *balEngine) predict(bt *balTx) (expect, []balEvent, func()) {
 			if bt.kind == bTick {
 				m.epoch = bt.epoch
 			}
+		}
+		if nestedRefusal {
+			return dontCare, evs, ap
 		}
 		return mustSucceed, evs, ap
 	}
